@@ -13,12 +13,18 @@ has no `include_source!`, is not an `ascent_source!`).
 * macro expansion is total (structural recursion on the depth budget); every macro of a set closed under
   "invokes a member again" is rejected from every invocation at every position, whatever the budget; so is
   every macro from which an empty disjunction is reached; an invocation whose call tree fits the budget succeeds;
+  expansion stops at the FIRST error everywhere (fix deae510: also in rule heads and inside disjunctions), so a macro
+  that invokes itself twice per level is answered `recMacro` after 100 steps, not after 2^100 (formerly finding FM8:
+  `branchingHeadMacro_rejected`, `branchingDisjMacro_rejected` evaluate in the kernel);
 * the pipeline NEVER panics (`check_never_panics`): the `panic!` sites guarding against leftovers of desugaring
   are unreachable, and the four formerly reachable sites are gone (FM7: fix 71f89c5; FM5: fix 5862f99, now the
   error `aggBoundArg` of the HIR pass; FM6: fix dfbe0be, now the errors `sigName` / `sigGenerics` in front of the
   stratification test); an empty disjunction is a parse error of its rule, resp. an error of the expansion of
   the macro whose body contains it (FM4: fix 361e42e);
-* the findings that still make a full-strength statement false (FM1 residue, FM2, FM10) are witnessed by closed
+* the rebind class covers the bound arguments of aggregations (fix 4509942; formerly finding FM2): one that names a
+  variable grounded by an earlier item, or that is repeated, is rejected (`illFormed_rebind_rejected` over the extended
+  `IllFormedRebind`; `accepted_is_wellFormed` / `wellFormedCore_accepted` are the two directions of the equivalence);
+* the findings that still make a full-strength statement false (FM1 residue, FM10) are witnessed by closed
   terms (`decide`), as is the NEW behaviour of the repaired ones.
 -/
 namespace AscentVerif.Check
@@ -261,11 +267,43 @@ theorem hidden_rebind_accepted :
   · simp [Ev.binderVars, Ev.hiddenVars]
   · simp [Ev.grounds, Ev.argIdents, Ev.binderVars, Ev.hiddenVars, argVars]
 
-/-- FM2. `b(y) <-- c(y), agg m = min(y) in a(y);` — the bound argument `y` of the aggregation is already
-grounded: accepted, `y` is shadowed inside the aggregation -/
+/-- FM2 (fixed by 4509942). `b(y) <-- c(y), agg m = min(y) in a(y);` — the bound argument `y` of the aggregation is
+already grounded: rejected like every other rebind (formerly accepted, `y` was shadowed inside the aggregation); the
+program is ill-formed in the sense of `IllFormedRebind` -/
 def wAggBound : Summary := prog [rel "a" 1, rel "b" 1, rel "c" 1,
   rule [.clause "b" 1] [.clause "c" [.var y] [], .agg "a" [.var y] ⟨[{ name := "m" }], []⟩ [y]]]
-theorem aggBound_shadow_accepted : check wAggBound = .ok () := by decide
+theorem aggBound_shadow_rejected :
+    check wAggBound = .error .shadow ∧
+    IllFormedRebind [⟨[⟨"b", 1⟩], [.clause "c" [.var y] [], .agg "a" [.var y] ⟨[{ name := "m" }], []⟩ [y]]⟩] := by
+  refine ⟨by decide, ⟨_, List.mem_singleton.2 rfl, [.clause "c" [.var y] []], .agg "a" [.var y] ⟨[{ name := "m" }], []⟩ [y], [],
+    rfl, Or.inr (Or.inr (Or.inr ⟨y, ?_, ?_⟩))⟩⟩
+  · simp [Ev.boundVars]
+  · simp [Ev.grounds, Ev.argIdents, Ev.binderVars, argVars]
+
+/-- the place of the new test in the `Agg` arm: after the test of the aggregated variables (`c(y), agg m = min(y, z) in a(y)`
+is still answered `aggBoundArg`), before the shadowing test of the pattern and before `prog_get_relation`
+(`c(y), agg m = min(y) in zz(y)` with `zz` undeclared is answered `shadow`); a repeated bound argument is a rebind as
+well (`agg m = f(y, y) in a(y)`) -/
+theorem aggBound_shadow_order :
+    check (prog [rel "a" 1, rel "b" 1, rel "c" 1, rule [.clause "b" 1]
+      [.clause "c" [.var y] [], .agg "a" [.var y] ⟨[{ name := "m" }], []⟩ [y, { name := "z" }]]]) = .error .aggBoundArg ∧
+    check (prog [rel "a" 1, rel "b" 1, rel "c" 1, rule [.clause "b" 1]
+      [.clause "c" [.var y] [], .agg "zz" [.var y] ⟨[{ name := "m" }], []⟩ [y]]]) = .error .shadow ∧
+    check (prog [rel "a" 1, rel "b" 1, rule [.clause "b" 1]
+      [.agg "a" [.var y] ⟨[{ name := "m" }], []⟩ [y, y]]]) = .error .shadow := by
+  refine ⟨?_, ?_, ?_⟩ <;> decide
+
+/-- the bound arguments stay local to the aggregation: `b(m) <-- agg m = min(y) in a(y), let y = 3;` and
+`b(m) <-- agg m = min(y) in a(y), agg k = min(y) in a(y);` are accepted (the name is free again behind the aggregation),
+and so is `b(y) <-- agg y = min(y) in a(y);` (the pattern is tested against the variables grounded BEFORE the item) -/
+theorem aggBound_local_accepted :
+    check (prog [rel "a" 1, rel "b" 1, rule [.clause "b" 1]
+      [.agg "a" [.var y] ⟨[{ name := "m" }], []⟩ [y], .binder ⟨[y], []⟩]]) = .ok () ∧
+    check (prog [rel "a" 1, rel "b" 1, rule [.clause "b" 1]
+      [.agg "a" [.var y] ⟨[{ name := "m" }], []⟩ [y], .agg "a" [.var y] ⟨[{ name := "k" }], []⟩ [y]]]) = .ok () ∧
+    check (prog [rel "a" 1, rel "b" 1, rule [.clause "b" 1]
+      [.agg "a" [.var y] ⟨[y], []⟩ [y]]]) = .ok () := by
+  refine ⟨?_, ?_, ?_⟩ <;> decide
 
 /-- FM4 (fixed by 361e42e). `zz(x) <-- a(x), ();` — the empty disjunction is a parse error of the rule (formerly
 the rule disappeared, and the undeclared relation `zz` with it); at any depth: `b(x) <-- a(x), (a(x) | (()));` -/
@@ -307,6 +345,37 @@ def wEmptyHeadMacro : Summary := prog [rel "a" 1, rel "b" 1,
   .mac 0 { name := "e", params := [], trailing := false, isHead := true, body := [], hbody := [] },
   rule [.mac "e" [], .clause "b" 1] [.clause "a" [.var x] []]]
 theorem emptyMacro_accepted : check wEmptyHeadMacro = .ok () := by decide
+
+/-- FM8 (fixed by deae510). `macro h($p: ident) { h!($p), h!($p) }  h!(x) <-- a(x);` — a head macro that invokes
+itself twice: expansion stops at the first error, the answer `recursively defined Ascent macro` is reached after 100
+steps along the leftmost branch (formerly all 2^100 invocations were expanded first: the kernel could not evaluate the
+eager model either) -/
+def wBranchHead : Summary := prog [rel "a" 1, rel "b" 1,
+  .mac 0 { name := "h", params := ["$p"], trailing := false, isHead := true, body := [], hbody := [.mac "h" [.var px], .mac "h" [.var px]] },
+  rule [.mac "h" [.var x]] [.clause "a" [.var x] []]]
+set_option maxRecDepth 100000 in
+theorem branchingHeadMacro_rejected : check wBranchHead = .error .recMacro := by decide
+
+/-- `macro m($p: ident) { (m!($p) | m!($p)) }  b(x) <-- m!(x);` — the same through a disjunction (an invocation and a
+disjunction each cost one unit of the budget: formerly 2^50 expansions) -/
+def wBranchDisj : Summary := prog [rel "a" 1, rel "b" 1,
+  macroM [.disj [[.mac "m" [.var px]], [.mac "m" [.var px]]]],
+  rule [.clause "b" 1] [.mac "m" [.var x]]]
+set_option maxRecDepth 100000 in
+theorem branchingDisjMacro_rejected : check wBranchDisj = .error .recMacro := by decide
+
+set_option maxRecDepth 100000 in
+/-- .. and behind a first alternative / a first head item that expands: `macro m($p: ident) { (a($p) | m!($p)), m!($p) }`,
+`macro h($p: ident) { b($p), h!($p), h!($p) }` -/
+theorem branchingMacro_later_rejected :
+    check (prog [rel "a" 1, rel "b" 1,
+      macroM [.disj [[.clause "a" [.var px] []], [.mac "m" [.var px]]], .mac "m" [.var px]],
+      rule [.clause "b" 1] [.mac "m" [.var x]]]) = .error .recMacro ∧
+    check (prog [rel "a" 1, rel "b" 1,
+      .mac 0 { name := "h", params := ["$p"], trailing := false, isHead := true, body := [],
+               hbody := [.clause "b" 1, .mac "h" [.var px], .mac "h" [.var px]] },
+      rule [.mac "h" [.var x]] [.clause "a" [.var x] []]]) = .error .recMacro := by
+  constructor <;> decide
 
 /-- FM9 (fixed by 9d3a18a). `lattice a(i32, i32,);` (well-formed) is accepted; `lattice a();` is still rejected -/
 theorem latticeTrailingComma_accepted : check (prog [.rel ⟨"a", 2, true, true, []⟩]) = .ok () := by decide
@@ -351,7 +420,12 @@ end AscentVerif.Check
 #print axioms AscentVerif.Check.illFormed_emptyDisj_rejected
 #print axioms AscentVerif.Check.illFormed_macroEmptyDisj_rejected
 #print axioms AscentVerif.Check.hidden_rebind_accepted
-#print axioms AscentVerif.Check.aggBound_shadow_accepted
+#print axioms AscentVerif.Check.aggBound_shadow_rejected
+#print axioms AscentVerif.Check.aggBound_shadow_order
+#print axioms AscentVerif.Check.aggBound_local_accepted
+#print axioms AscentVerif.Check.branchingHeadMacro_rejected
+#print axioms AscentVerif.Check.branchingDisjMacro_rejected
+#print axioms AscentVerif.Check.branchingMacro_later_rejected
 #print axioms AscentVerif.Check.emptyDisj_rejected
 #print axioms AscentVerif.Check.emptyDisj_deep_rejected
 #print axioms AscentVerif.Check.emptyDisj_in_macro_rejected
